@@ -244,12 +244,10 @@ func (r *run) batch(sub []Op) (*failure, bool) {
 		})
 		if !ok && mayBeLost {
 			// queued on a connection that died at that moment: ended by the proxy's timeout (see leaseOnce)
-			r.logf("  lease %s: lost with its connection, local reset (timeout)", it.tok)
-			r.class("lost-request-timeout")
-			if h := r.rig.Reset(s.st); h != nil {
-				return r.hang(h), false
+			s.state = sActive
+			if f := r.timeoutLost(s); f != nil {
+				return f, false
 			}
-			s.state = sReset
 			continue
 		}
 		if !ok {
